@@ -259,7 +259,7 @@ func runC10(c *Ctx) {
 		// its successful exits are the sites, analysed with its parameters bound to the arguments
 		if hc := stripObj(v); hc.Op == "ext" && hc.Idx == 0 && len(hc.Args) == 1 && stripObj(hc.Args[0]).Op == "call" {
 			call := stripObj(hc.Args[0])
-			if h := calleeOf(call); h != nil && h.Blocks != nil && ana.InRepo(h) && len(ana.BackEdges(h)) == 0 && len(call.Args) == len(h.Params) && h.Signature.Results().Len() == 2 && len(h.Blocks) > 2 {
+			if h := calleeOf(call); h != nil && h.Blocks != nil && ana.InRepo(h) && len(ana.BackEdges(h)) == 0 && len(call.Args) == len(h.Params) && len(h.Params) >= 2 && h.Signature.Results().Len() == 2 && len(h.Blocks) > 2 {
 				hb := c.boundBuilder(call)
 				gk := plainEdges(edgesMatching(b, "raw:bin<==>(ext#1("+termPat(call)+"), nil)"))
 				var hs []vsite
